@@ -204,6 +204,9 @@ func runCase(r *vh.Run, c connCase) {
 			if v.Closed {
 				return true
 			}
+			if p.Trunc {
+				return false // an unfinished upload: the end of the connection is awaited
+			}
 			select {
 			case <-wdone:
 			default:
@@ -214,6 +217,12 @@ func runCase(r *vh.Run, c connCase) {
 			// Read pending on the client socket while it waits for the origin)
 			return responsesComplete(v, p, p.Last+1)
 		}, func() string { return cl.Activity() + " " + act() })
+		if p.Trunc && out == vh.Stuck {
+			// what the proxy does with a connection whose client stopped inside a
+			// body is not judged; the origin side is, at this quiescence
+			r.Count("unfinished_upload_connection_open_at_quiescence", 1)
+			out = vh.Happened
+		}
 		decided = handleStep(r, c, cl, out, fp, &vs, "pipelined")
 	} else {
 		for i := range p.Reqs {
@@ -229,14 +238,19 @@ func runCase(r *vh.Run, c connCase) {
 				cl.CloseWrite()
 			}
 			n := i + 1
+			unfinished := p.Trunc && i == p.Last
 			out, fp := h1x.AwaitCond(func() bool {
 				q, _ := cl.Quiet()
 				if !q {
 					return false
 				}
 				v := cl.View()
-				return v.Closed || responsesComplete(v, p, n)
+				return v.Closed || (!unfinished && responsesComplete(v, p, n))
 			}, func() string { return cl.Activity() + " " + act() })
+			if unfinished && out == vh.Stuck {
+				r.Count("unfinished_upload_connection_open_at_quiescence", 1)
+				out = vh.Happened
+			}
 			if !handleStep(r, c, cl, out, fp, &vs, "sequential") {
 				decided = false
 				break
@@ -372,5 +386,5 @@ func describe(p *plan) interface{} {
 		ex = append(ex, fmt.Sprintf("#%d %s %s %s abs=%v hdrs=%d body=%s/%d close=%v early=%q -> %s %d %s/%d hdrs=%d close=%v headCL=%d",
 			i, q.Method, trunc(t, 60), q.Proto, q.Abs, len(q.Headers), q.Framing, len(q.Body), q.Close, q.Early, s.Proto, s.Status, s.Framing, len(s.Body), len(s.Headers), s.Close, s.HeadCL))
 	}
-	return map[string]interface{}{"half_close": p.HalfClose, "long": p.Long, "n": len(p.Reqs), "pipelined": p.Pipelined, "seg_mode": p.SegMode, "must_close_after": p.Last, "exchanges": ex}
+	return map[string]interface{}{"unfinished_upload": p.Trunc, "upload_cut_at": p.TruncCut, "half_close": p.HalfClose, "long": p.Long, "n": len(p.Reqs), "pipelined": p.Pipelined, "seg_mode": p.SegMode, "must_close_after": p.Last, "exchanges": ex}
 }
